@@ -10,8 +10,7 @@ import Pms.Props.C04
 #print axioms Pms.Sq.C04_sumrule
 #print axioms Pms.Sq.C04_diag_nonneg
 #print axioms Pms.Sq.C04_group
-#print axioms Pms.Sq.rhoC_re
-#print axioms Pms.Sq.rhoC_im
+#print axioms Pms.Sq.C04_unique
 #print axioms Pms.Sq.C04_density_modes
 #print axioms Pms.Sq.C04_density_modes_q
 #print axioms Pms.Sq.C04_wave_source
